@@ -88,7 +88,7 @@ class StubConfig(object):
     def _section_exists(self, section):
         if self.real.has_section(section):
             return tm.TRUE
-        keys = [n for n in self.world.input_names if n.split('.')[0] == section]
+        keys = [n for n in self.world.all_input_names if n.split('.')[0] == section]
         return tm.or_(*[self._present(n) for n in keys]) if keys else tm.FALSE
 
     def has_option(self, section, key):
@@ -112,7 +112,7 @@ class StubConfig(object):
         out = list(self.real.sections())
         if not self.world.defaults:
             return out          # whether the section already exists is immaterial without [DEFAULT]
-        for sec in sorted(set(n.split('.')[0] for n in self.world.input_names)):
+        for sec in sorted(set(n.split('.')[0] for n in self.world.all_input_names)):
             if sec not in out and symx.cur().decide(self._section_exists(sec)):
                 out.append(sec)
         return out
@@ -153,12 +153,13 @@ class World(object):
     (action per node), memoised so re-attempts and repeated solves see the same
     deterministic line definitions."""
 
-    def __init__(self, nlines, ninputs, depth, second_form=True, instanced=False, allow_abort_targets=True):
+    def __init__(self, nlines, ninputs, depth, second_form=True, instanced=False, allow_abort_targets=True, two_copies=False):
         self.N = nlines
         self.M = ninputs
         self.D = depth
         self.second_form = second_form
         self.instanced = instanced
+        self.two_copies = bool(instanced and two_copies)
         self.allow_abort_targets = allow_abort_targets
         self.input_modes = False
         self.mode_granularity = 'program'
@@ -175,7 +176,7 @@ class World(object):
             inst = ':0' if instanced else ''
             self.targets.append('fb%s.r0' % inst)      # required line of the other form
             self.targets.append('fb%s.o0' % inst)      # optional line of the other form
-            if instanced:
+            if self.two_copies:
                 self.targets.append('fb:1.r0')         # a second numbered copy of the same form
         if allow_abort_targets:
             self.targets.append('nope.x')              # unsupported form -> NotImplementedError
@@ -183,6 +184,8 @@ class World(object):
         self.input_names = ['fa.i%d' % j for j in range(ninputs)]
         if second_form:
             self.input_names.append('fb%s.j0' % (':0' if instanced else ''))
+        # every input a run can touch (the second numbered copy has its own input, reached through a relative name)
+        self.all_input_names = list(self.input_names) + (['fb:1.j0'] if (second_form and self.two_copies) else [])
         # actions: 0 RETURN, 1 NOT_IMPLEMENTED, 2.. read input j, then read line t
         self.n_actions = 2 + len(self.input_names) + len(self.targets)
 
@@ -226,6 +229,19 @@ def make_value_fn(world, line_name):
     """The one value function all generated lines share: walks the line's
     decision tree."""
 
+    own_form = line_name.split('.')[0]
+
+    def rel(name):
+        """Lines and inputs of the line's own form are looked up by their *relative* name, as the
+        shipped forms do: which line that is depends on the accessor the solver hands in.  A line
+        of a numbered copy reads its own copy's lines/inputs this way."""
+        f, base = name.split('.', 1)
+        if f == own_form:
+            return base, name
+        if world.instanced and own_form == 'fb:1' and name == 'fb:0.j0':
+            return base, own_form + '.' + base      # the second copy reads its *own* input
+        return name, name
+
     def value_fn(self, i, v):
         node = ()
         reads = []
@@ -238,27 +254,27 @@ def make_value_fn(world, line_name):
                 self.not_implemented()
             a -= 2
             if a < len(world.input_names):
-                name = world.input_names[a]
+                lname, name = rel(world.input_names[a])
                 mode = world.choose(world.mode_key('i', line_name, node), 3) if world.input_modes else 0
                 if mode == 0:
-                    val = i[name]
+                    val = i[lname]
                 elif mode == 1:
-                    val = i.get(name, MISSING)
+                    val = i.get(lname, MISSING)
                 else:
-                    val = 1 if name in i else 0
+                    val = 1 if lname in i else 0
                 world.log.append(('read_input_ok', line_name, name))
             else:
-                name = world.targets[a - len(world.input_names)]
+                lname, name = rel(world.targets[a - len(world.input_names)])
                 # how the definition looks the line up: v[name], v.get(name, default)
                 # or `name in v` -- all three must abort the attempt while the
                 # line has no value yet
                 mode = world.choose(world.mode_key('v', line_name, node), world.n_modes)
                 if mode == 0:
-                    val = v[name]
+                    val = v[lname]
                 elif mode == 1:
-                    val = v.get(name, MISSING)
+                    val = v.get(lname, MISSING)
                 else:
-                    val = 1 if name in v else 0
+                    val = 1 if lname in v else 0
                 world.log.append(('read_line_ok', line_name, name))
             if val is MISSING:
                 val = -1
